@@ -28,11 +28,14 @@ class AbsSelector:
 
     FALSY, TRUTHY = (0, "", None, [], 0.0), (1, "x", ["a"], 2.5, -1)
 
-    def __init__(self, it, values=False):
-        self.it, self.calls, self.answers, self.values = it, [], [], values
+    def __init__(self, it, values=False, raises_at=None):
+        self.it, self.calls, self.answers, self.values, self.raises_at = it, [], [], values, raises_at
 
     def match(self, rec):
         self.calls.append(rec)
+        if self.raises_at is not None and len(self.calls) - 1 == self.raises_at:
+            # the selector cannot be evaluated on this record (r.size > 1024 where size is text): testing it afterwards raises here
+            raise PyRaise(TypeError("'>' not supported between instances of 'str' and 'int'"))
         b = z3.Bool(f"match!{len(self.calls)}")
         d = self.it.branch(b)
         self.answers.append(d)
@@ -122,6 +125,22 @@ def build(tier="quick", seed=0):
             name = f"C10.loop[{kind}, {'abstract selector answering with values that are not booleans' if with_selector == 'values' else 'abstract selector' if with_selector else 'no selector'}]"
             pack.add(Obligation(name, lambda tier, name=name, kind=kind, ws=with_selector: prove_paths(name, th_loop(kind, ws), lambda p: (p.value[0] is True, p.value[2]), lambda m_, p: {}),
                                 replay=lambda w, kind=kind: {"call": "c10_reader", "args": {"kind": kind}}, functions=FU, mode="abstract selector (arbitrary boolean per record, all 2^3 answer vectors), source of three items"))
+    # a selector that cannot be evaluated on one record RAISES there when the records are tested afterwards: reading with it gives the records kept in front of that
+    # record and then the same error - it does not drop the record and read on as if nothing had happened
+    def th_loop_raise(kind, at):
+        def th():
+            s = AbsSelector(it, raises_at=at)
+            rd, n = SOURCES[kind](s)
+            out, end = drain(it, it.iterate(rd))
+            kept = [r for r, a in zip(s.calls, s.answers) if a]
+            return len(out) == len(kept), end if isinstance(end, str) else end[:2], len(s.calls)
+        return th
+
+    for kind in SOURCES:
+        for at in (0, 1):
+            name = f"C10.loop[{kind}, abstract selector that raises TypeError on record {at}]"
+            pack.add(Obligation(name, lambda tier, name=name, kind=kind, at=at: prove_paths(name, th_loop_raise(kind, at), lambda p, at=at: (p.value[0] and p.value[1] == ("raise", "TypeError") and p.value[2] == at + 1, f"the reader ended {p.value[1]} after asking the selector {p.value[2]} time(s) (kept records yielded: {p.value[0]}); testing afterwards raises TypeError at record {at}"), lambda m_, p: {}),
+                                replay=lambda w, kind=kind: {"call": "c10_selector_raises", "args": {"kind": kind}}, functions=FU, mode="abstract selector raising at a chosen record"))
     pack.case_analyses.append("reader loops: sources of three items (two plus one fallback line for JSON; two tables for SQLite, batch size 2); the loop bodies do not depend on the position, the selector is arbitrary")
 
     # ------------------------------------------------------------------ real selectors: reading with the selector == reading everything and testing each record with a fresh selector
